@@ -225,6 +225,35 @@ Theorem C06_model_trim_table : forall im op,
 Proof. exact request_trim_only. Qed.
 Print Assumptions C06_model_trim_table.
 
+(* (8) tj3Transform crop alignment: acceptance follows the DESTINATION iMCU grid, an accepted
+   untrimmed region keeps its origin and has exactly the requested size; and the grid TurboJPEG
+   uses (tjMCUWidth/Height of getDstSubsamp, generated from the current source) is that grid *)
+Theorem C06_tj_crop_alignment : forall im n t p,
+  1 <= i_w im -> 1 <= i_h im -> opts_nonneg (tj_xopts n t) ->
+  request_workspace im (tj_xopts n t) = inr p -> t_crop t = true ->
+  let imw := if p_nc p =? 1 then 8 else tw (t_op t) (max_hs (i_comps im)) (max_vs (i_comps im)) * 8 in
+  let imh := if p_nc p =? 1 then 8 else th (t_op t) (max_hs (i_comps im)) (max_vs (i_comps im)) * 8 in
+  p_imw p = imw /\ p_imh p = imh /\
+  (tj_precheck im n t = None <-> (t_x t mod imw = 0 /\ t_y t mod imh = 0)).
+Proof. exact tj_crop_alignment. Qed.
+Print Assumptions C06_tj_crop_alignment.
+
+Theorem C06_tj_crop_size : forall im n t p,
+  request_workspace im (tj_xopts n t) = inr p -> t_crop t = true -> t_trim t = false ->
+  t_x t mod p_imw p = 0 -> t_y t mod p_imh p = 0 -> 0 < p_imw p -> 0 < p_imh p ->
+  p_xco p * p_imw p = t_x t /\ p_yco p * p_imh p = t_y t /\
+  p_ow p = (if t_w t =? 0 then tw (t_op t) (i_w im) (i_h im) - t_x t else t_w t) /\
+  p_oh p = (if t_h t =? 0 then th (t_op t) (i_w im) (i_h im) - t_y t else t_h t).
+Proof. exact tj_crop_size. Qed.
+Print Assumptions C06_tj_crop_size.
+
+Theorem C06_tj_grid_is_dst_imcu :
+  Forall (fun e => let '((hs, vs), (w, h), (dhs, dvs)) := e in
+                   forall tr : bool, (if tr then (8 * dhs, 8 * dvs) else (w, h)) =
+                                     (if tr then 8 * vs else 8 * hs, if tr then 8 * hs else 8 * vs)) gen_tjsamp.
+Proof. exact tj_mcu_is_dst_imcu. Qed.
+Print Assumptions C06_tj_grid_is_dst_imcu.
+
 (* ---- non-vacuity ---- *)
 Example C06_ex_whole_image : whole_image ex_image 3 2.
 Proof. exact ex_image_whole. Qed.
